@@ -25,6 +25,7 @@ type Interp struct {
 
 	opaqueCache  map[types.Type]opaqueKind
 	opaqueMu     sync.Mutex
+	opaqueSync   sync.Map
 	bigIntStruct types.Type
 	bigRatStruct types.Type
 
